@@ -412,6 +412,10 @@ func (w *cwWorld) synthInbound(blkNum uint64) types.Transactions {
 				add("revert-quai", &types.ExternalTx{OriginatingTxHash: w.etxHash(), ETXIndex: uint16(i), Gas: params.TxGas * 2, To: &to, Value: big.NewInt(1e14 + int64(rc.Intn(1e6))), Data: data, Sender: from, EtxType: types.ConversionRevertType})
 			} else {
 				to, from := w.randQuaiAddr(), w.randQiAddr()
+				if rc.Chance(60) {
+					ws, _ := cwWatch()
+					to = ws[len(ws)-1] // a refused conversion to the conversion-only watch address: it must never be credited there
+				}
 				data := append([]byte{0, 0}, from.Bytes()...)
 				add("revert-qi", &types.ExternalTx{OriginatingTxHash: w.etxHash(), ETXIndex: uint16(i), Gas: params.TxGas + 8*params.CallValueTransferGas, To: &to, Value: w.qiAmount(), Data: data, Sender: from, EtxType: types.ConversionRevertType})
 			}
@@ -1211,4 +1215,12 @@ func (w *cwWorld) waitPool() {
 		return
 	}
 	time.Sleep(5 * time.Millisecond)
+}
+
+// the oracles classify ETXs themselves (by the type field), not with the predicates of the code under test
+func isCoinbaseEtx(tx *types.Transaction) bool {
+	return tx != nil && tx.Type() == types.ExternalTxType && tx.EtxType() == types.CoinbaseType
+}
+func isConversionEtx(tx *types.Transaction) bool {
+	return tx != nil && tx.Type() == types.ExternalTxType && tx.EtxType() == types.ConversionType
 }
